@@ -2,6 +2,7 @@ package main
 
 import (
 	"fmt"
+	"strings"
 
 	"golang.org/x/tools/go/ssa"
 )
@@ -89,8 +90,14 @@ func (m *Machine) initStep(th *Thread, root *Frame) {
 				case *ssa.If, *ssa.Jump, *ssa.Return, *ssa.Panic:
 					// cannot continue this init function
 					th.top = fr.caller
-					if fr.caller != nil {
-						fr.caller.pc++
+					if c := fr.caller; c != nil {
+						// the abandoned call yields poison in the caller, never a zero value
+						if c.block != nil && c.pc < len(c.block.Instrs) {
+							if v, ok := c.block.Instrs[c.pc].(ssa.Value); ok {
+								c.regs[c.info.index[v]] = PoisonV{Why: shortWhy(why)}
+							}
+						}
+						c.pc++
 					}
 					return
 				}
@@ -105,7 +112,7 @@ func (m *Machine) initStep(th *Thread, root *Frame) {
 	}
 	fr := th.top
 	// user init functions (init#1...) called from the synthetic init get tolerant frames too
-	if fr.caller != nil && fr.caller.initFrame && fr.caller.fn.Synthetic == "package initializer" {
+	if fr.caller != nil && fr.caller.initFrame && fr.caller.fn.Synthetic == "package initializer" && strings.HasPrefix(fr.fn.Name(), "init#") {
 		fr.initFrame = true
 	}
 	if fr.status != stRunning {
